@@ -97,7 +97,9 @@ def behaviour(kind, o, extra_cands=()):
             except UndefinedComparison: out.append("UC")
         return tuple(out)
     if kind == "requirement":
-        return (canonicalize_name(o.name), frozenset(o.extras), o.specifier, o.url, o.marker)
+        # equal parts - and the parts themselves behave alike: the specifier set matches / filters, the marker evaluates
+        return (canonicalize_name(o.name), frozenset(o.extras), o.specifier, o.url, o.marker,
+                behaviour("set", o.specifier, extra_cands), None if o.marker is None else behaviour("marker", o.marker))
     if kind == "tag":
         return (o.interpreter, o.abi, o.platform)
 
@@ -115,7 +117,7 @@ def observe(cmd, args):
         kind, texts = args[0], args[1:]
         objs = [build(kind, t) for t in texts]
         objs = [(t, o) for t, o in zip(texts, objs) if o is not None]
-        extra = near(texts) if kind in ("specifier", "set") else ()
+        extra = near(texts) if kind in ("specifier", "set") else near([re.sub(r"^[^<>=!~(]*", "", t.split(";")[0].split("@")[0]).strip("() ") for t in texts]) if kind == "requirement" else ()
         for t, x in objs:
             if not (x == x) or (x != x): return "%s not equal to itself: %r" % (kind, t)
             if hash(x) != hash(build(kind, t)): return "%s hash differs between two constructions of %r" % (kind, t)
